@@ -101,6 +101,10 @@ example : (2 ≤ 4) ∧ (∀ j pt, failAt 3 j pt = none ↔ j = 4 - 1) ∧ (∀ 
     4 ≤ (solve (P 5 (1/100)) F (fun _ => none) {}).nTrials :=
   ⟨by decide, fun j pt => failAt_iff 3 j pt, fun j pt h => (failAt_agree 3 j pt h).symm, by decide +kernel⟩
 
+/-- the theorem instantiated at that run -/
+example := C16_fail_contained_partial (P 5 (1/100)) (failAt 3) F 4 (by decide) (fun j pt => failAt_iff 3 j pt)
+  (fun j pt h => (failAt_agree 3 j pt h).symm) (by decide +kernel)
+
 /-- the run with the failing objective: 3 trials, 4 calls, log as stated -/
 example : (solve (P 5 (1/100)) (failAt 3) (fun _ => none) {}).nTrials = 3 ∧
     (solve (P 5 (1/100)) (failAt 3) (fun _ => none) {}).calls = 4 ∧
